@@ -3,13 +3,12 @@
    path is lexed (documented path characters, at most 64 tokens), every capture converts
    (okconv constantly true: e.g. string fields), and the covering is the specification's MatchEdges
    (so "**" ends the template: the lexer enforces it, Properties/C16).
-   Order independence: two accepted registration orders of the same bindings route every request
-   identically (C02_order_independent, through an exact characterisation of a built trie's content by
-   the list of registered bindings). PARTIAL only in this: that one order is accepted whenever the
-   other is, is decided by the correspondence run (every generated rule set is registered in all
-   permutations and the verdicts compared), not by a theorem. *)
+   Order independence: if a list of pairwise distinct bindings is accepted in one registration order
+   it is accepted in every order (C02_acceptance_order_independent), and two orders route every request
+   identically (C02_order_independent) -- through an exact characterisation of a built trie's content
+   by the list of registered bindings. *)
 From Larking Require Import Base.GoSem Model.Lexer Model.Trie Model.Match Spec.Grammar Spec.Route
-  Proofs.LexerProofs Proofs.MatchProofs Proofs.TrieProofs Proofs.RoutingProofs Proofs.OrderProofs.
+  Proofs.LexerProofs Proofs.MatchProofs Proofs.TrieProofs Proofs.RoutingProofs Proofs.OrderProofs Proofs.AcceptProofs.
 From Coq Require Import Permutation.
 Local Open Scope N_scope.
 
@@ -82,6 +81,17 @@ Theorem C02_order_independent :
   forall verb p, route okconv isLetter isNumber r1 verb p = route okconv isLetter isNumber r2 verb p.
 Proof. intros isLetter isNumber resolves body_ok resp_ok okconv. exact (order_independent isLetter isNumber resolves body_ok resp_ok okconv). Qed.
 Print Assumptions C02_order_independent.
+
+(* ... and whether a rule set is accepted does not depend on the order either: conflicts are detected
+   symmetrically (every accepted binding met no other method's binding under an overlapping verb, in
+   whichever order they came), the other causes of refusal concern one binding alone *)
+Theorem C02_acceptance_order_independent :
+  forall isLetter isNumber resolves body_ok resp_ok l1 l2 r1,
+  Permutation l1 l2 -> NoDup l1 -> Distinct isLetter isNumber resolves l1 ->
+  build_from isLetter isNumber resolves body_ok resp_ok empty_node l1 = Ok r1 ->
+  exists r2, build_from isLetter isNumber resolves body_ok resp_ok empty_node l2 = Ok r2.
+Proof. exact accept_perm. Qed.
+Print Assumptions C02_acceptance_order_independent.
 
 (* the content of a built trie is exactly the registered bindings: which nodes exist, and what is
    stored at each, is a function of the set of bindings, not of their order *)
